@@ -40,6 +40,19 @@ int main() {
         try { (void) Path(s).getPathName(); (void) Path(s).getParentDirectory(); }
         catch (...) { fail("getPathName/getParentDirectory threw on \"" + s + "\""); }
     }
+    // listChildren: every entry exactly once, except "." and ".."
+    { char t2[] = "/tmp/path_replay_ls_XXXXXX";
+      if (mkdtemp(t2)) {
+        std::vector<std::string> want = {"a", ".hidden", "..data", "...", "x y", "..", "trailing.", "\xc3\xa9"};
+        want.erase(want.begin() + 5);
+        for (auto &w : want) { FILE *f = fopen((std::string(t2) + "/" + w).c_str(), "w"); if (f) fclose(f); }
+        std::vector<std::string> got;
+        for (auto &c : Path(std::string(t2)).listChildren()) got.push_back(c.toString());
+        for (auto &w : want) { int n = 0; for (auto &g : got) if (g == w) ++n; if (n != 1) fail("listChildren returned the entry \"" + w + "\" " + std::to_string(n) + " times"); }
+        for (auto &g : got) if (g == "." || g == "..") fail("listChildren returned \"" + g + "\"");
+        for (auto &w : want) remove((std::string(t2) + "/" + w).c_str());
+        rmdir(t2);
+      } }
     // DirectoryVisitor
     std::string before = cwd();
     char tmpl[] = "/tmp/path_replay_XXXXXX";
